@@ -98,6 +98,90 @@ Definition run_schedule (args : list value) : value :=
   | _ => vtag "badargs" []
   end.
 
+(* ---------- trace inclusion: is an observed sequence of lock events a run of the model? ----------
+   An event = (thread, acquired? / released, lock).  Everything else a thread does is invisible.
+   Plain search over [step] (no theorem needed: "accepted" exhibits a run; "rejected" is reported
+   by the harness as a difference between implementation and model). *)
+Definition ev := (nat * bool * nat)%type.
+
+Definition visible (ps : list prog) (s : state) (lb : label) : option ev :=
+  match nth_error (nth (fst lb) ps []) (pc_of s (fst lb)) with
+  | Some (Acquire l) => Some (fst lb, true, l)
+  | Some (Release l) => Some (fst lb, false, l)
+  | _ => None
+  end.
+
+Definition ev_eqb (a b : ev) : bool :=
+  let '(t, k, l) := a in let '(t', k', l') := b in
+  Nat.eqb t t' && Bool.eqb k k' && Nat.eqb l l'.
+
+Definition sset := PositiveMap.t state.
+Definition smem (s : state) (m : sset) : bool :=
+  match PositiveMap.find (key s) m with Some s' => state_eqb s s' | None => false end.
+
+Fixpoint close (fuel : nat) (ps : list prog) (work : list state) (m : sset) : sset :=
+  match work with
+  | [] => m
+  | s :: w =>
+      match fuel with
+      | O => m
+      | S f =>
+          let succ := flat_map (fun lb => match visible ps s lb with
+                                          | Some _ => []
+                                          | None => match step ps s lb with Some s' => [s'] | None => [] end
+                                          end) (labels ps) in
+          let '(w', m') := fold_left (fun (acc : list state * sset) s' =>
+                                        let '(w0, m0) := acc in
+                                        if smem s' m0 then acc else (s' :: w0, PositiveMap.add (key s') s' m0))
+                                     succ (w, m) in
+          close f ps w' m'
+      end
+  end.
+
+Definition set_of (l : list state) : sset :=
+  fold_left (fun m s => PositiveMap.add (key s) s m) l (PositiveMap.empty _).
+Definition states_of (m : sset) : list state := map snd (PositiveMap.elements m).
+
+Definition advance (ps : list prog) (m : sset) (e : ev) : list state :=
+  flat_map (fun s =>
+    flat_map (fun lb => match visible ps s lb with
+                        | Some e' => if ev_eqb e e' then match step ps s lb with Some s' => [s'] | None => [] end
+                                     else []
+                        | None => []
+                        end) (labels ps)) (states_of m).
+
+(* index of the first event that cannot be matched, or None if the whole sequence is accepted *)
+Fixpoint accepts (ps : list prog) (cur : list state) (evs : list ev) (ix : nat) : option nat * nat :=
+  let m := close explore_fuel ps cur (set_of cur) in
+  match evs with
+  | [] => (None, PositiveMap.cardinal m)
+  | e :: r =>
+      match advance ps m e with
+      | [] => (Some ix, PositiveMap.cardinal m)
+      | nxt => accepts ps (states_of (set_of nxt)) r (S ix)
+      end
+  end.
+
+Definition dec_ev (v : value) : option ev :=
+  match v with
+  | VList [VNum (NInt t); VBool k; VNum (NInt l)] => Some (Z.to_nat t, k, Z.to_nat l)
+  | _ => None
+  end.
+
+Definition run_accepts (args : list value) : value :=
+  match args with
+  | [v; VList evs] =>
+      match dec_config v, opt_all (map dec_ev evs) with
+      | Some c, Some evs' =>
+          let '(bad, n) := accepts (progs c) [init c] evs' 0 in
+          VObj [("accepted", vbool (match bad with None => true | Some _ => false end));
+                ("first_unmatched", vopt vnat bad);
+                ("states_at_end", vnat n)]
+      | _, _ => vtag "ood" []
+      end
+  | _ => vtag "badargs" []
+  end.
+
 Definition run_skeletons (args : list value) : value :=
   VObj (map (fun kv => (fst kv, VStr (snd kv))) skeletons).
 
@@ -107,6 +191,7 @@ Definition run_family (args : list value) : value :=
 Definition entries : list (string * (list value -> value)) :=
   [("conc.verdict", run_verdict);
    ("conc.schedule", run_schedule);
+   ("conc.accepts", run_accepts);
    ("conc.skeletons", run_skeletons);
    ("conc.family", run_family)].
 
